@@ -30,6 +30,13 @@ type LoopContract struct {
 	Assigns    []string
 }
 
+// Exempt: `exempt <param> when <cond>` — at returns where cond holds, the object *param may violate its type
+// invariant (e.g. a decoder that leaves a half-written value behind when it reports an error).
+type Exempt struct {
+	Param  string
+	Clause *Clause
+}
+
 // ClosureContract: contract of a function literal bound once to a local (checked at every inlined call).
 type ClosureContract struct {
 	Name     string
@@ -66,6 +73,7 @@ type Contract struct {
 	NoVerify   bool // contract used at call sites but body not verified here (listed as assumption)
 	Loops      map[int]*LoopContract
 	Closures   map[string]*ClosureContract
+	Exempts    []*Exempt
 	GhostVars  []*GhostVar
 	Hooks      []*GhostHook
 	Cost       *Clause
@@ -86,6 +94,8 @@ type ContractFile struct {
 	Lemmas    []*Lemma
 	TypeInvs  []*TypeInv
 	GlobalInvs []*GlobalInv
+	MapVals   []*TypeInv // `mapvals <global> <var> <type> : <expr>` facts about the values of an immutable package-level map
+	NonNilElems []string // element types whose slice elements are never nil once the slice is visible outside the frame that built it
 	FreshOnly []string // heap keys that are only ever written on objects allocated by the writer (see `freshonly`)
 	Errors    []string
 }
@@ -150,7 +160,7 @@ func ParseContracts(src string) *ContractFile {
 		if k := strings.IndexAny(t, " \t"); k >= 0 {
 			word, rest = t[:k], strings.TrimSpace(t[k+1:])
 		}
-		if curLemma != nil && word != "func" && word != "lemma" && word != "typeinv" && word != "globalinv" && word != "freshonly" {
+		if curLemma != nil && word != "func" && word != "lemma" && word != "typeinv" && word != "globalinv" && word != "freshonly" && word != "nonnil-elems" && word != "mapvals" {
 			curLemma.Body += raw + "\n"
 			continue
 		}
@@ -177,6 +187,22 @@ func ParseContracts(src string) *ContractFile {
 			}
 			cf.Lemmas = append(cf.Lemmas, curLemma)
 			cur, curLoop = nil, nil
+			continue
+		case "mapvals":
+			k := strings.Index(rest, ":")
+			if k < 0 {
+				errf(ln, "mapvals needs ':'")
+				continue
+			}
+			f := strings.Fields(rest[:k])
+			if len(f) != 3 {
+				errf(ln, "mapvals <global> <var> <type> : expr")
+				continue
+			}
+			cf.MapVals = append(cf.MapVals, &TypeInv{Var: f[1], Type: f[2], Clause: &Clause{Kind: "mapvals:" + f[0], Text: strings.TrimSpace(rest[k+1:]), Line: ln}})
+			continue
+		case "nonnil-elems":
+			cf.NonNilElems = append(cf.NonNilElems, splitProps(rest)...)
 			continue
 		case "freshonly":
 			cf.FreshOnly = append(cf.FreshOnly, splitProps(rest)...)
@@ -246,6 +272,13 @@ func ParseContracts(src string) *ContractFile {
 			c := &Clause{Kind: "ensures", Text: rest, Props: props, Line: ln, Ord: len(cur.Ensures) + 1}
 			cur.Ensures = append(cur.Ensures, c)
 			lastClause = c
+		case "exempt":
+			f := strings.SplitN(rest, " when ", 2)
+			if len(f) != 2 {
+				errf(ln, "exempt <param> when <cond>")
+				continue
+			}
+			cur.Exempts = append(cur.Exempts, &Exempt{Param: strings.TrimSpace(f[0]), Clause: &Clause{Kind: "exempt", Text: strings.TrimSpace(f[1]), Line: ln}})
 		case "goal":
 			// a postcondition that is checked when the function is verified but never assumed at call sites
 			c := &Clause{Kind: "goal", Text: rest, Props: props, Line: ln, Ord: len(cur.Goals) + 1}
@@ -462,7 +495,7 @@ func rewriteToks(ts []tok) (string, error) {
 		case token.RPAREN, token.RBRACK, token.RBRACE:
 			depth--
 		}
-		if depth == 0 && ts[i].t == token.LEQ && i+1 < len(ts) && ts[i+1].t == token.EQL && i+2 < len(ts) && ts[i+2].t == token.GTR {
+		if depth == 0 && ts[i].t == token.LEQ && i+1 < len(ts) && (ts[i+1].t == token.EQL || ts[i+1].t == token.ASSIGN) && i+2 < len(ts) && ts[i+2].t == token.GTR {
 			l, err := rewriteToks(ts[:i])
 			if err != nil {
 				return "", err
